@@ -377,6 +377,8 @@ def judge_geo(ctx, bins, cases, label, threads=THREADS, shrink_budget=120):
             if o.startswith("abort:") and "ERR:oob" in model[(i, b)]:
                 # undefined behaviour in the code <-> the model's explicit oob state (inputs outside the contract)
                 ctx.stat("geo:oob-agree(impl aborts, model ERR:oob):" + b)
+                if (b, t) == (BUILDS[0], threads[0]):
+                    ctx.stat("geo:unjudged(agreed oob/abort)")
                 continue
             if c.tag.startswith("malformed") and "ERR:oob" in model[(i, b)] and not o.startswith("abort:"):
                 sig = "corr:geo:oob:" + b
@@ -563,66 +565,117 @@ def i_matrix(r, N):
     return W, "matrix"
 
 
+# declared skip budgets (audit a1): a leg whose cases are mostly not judged must not stay green
+ISO_MAX_EXPECTED_FAILURE_FRACTION = 0.25    # model itself predicts a non-finite matrix (check off, graph not strongly connected)
+ISO_MAX_CERT_UNJUDGED_FRACTION = 0.20       # eligible (dense, N <= 16, finite) cases whose certificate is inconclusive / na
+GEO_MAX_UNJUDGED_FRACTION = 0.05            # geo cases that end in the agreed oob/abort state (malformed inputs)
+
+
+def iso_model_line(c, f):
+    """what the driver judges: the lists OBSERVED inside embed(), the weights, and either `thrown` or the observations"""
+    base = "iso N=%d k=%d cc=%d nb=%s w=%s" % (c.N, c.k, c.cc, f.get("nb", ""), mat_txt(c.W))
+    if "throw" in f:
+        return base + " thrown=1"
+    extra = ""
+    if c.eig == "dense" and c.N <= 16:      # certificate of the final embedding (exact LDLt: small N only)
+        extra = " d=%d ev=%s Y=%s" % (c.d, f.get("ev", ""), f.get("Y", ""))
+    return base + " pre=%s%s" % (f.get("pre", ""), extra)
+
+
 def judge_iso(ctx, bins, cases, threads):
     if not cases:
         return
     lines = [c.line() for c in cases]
     impl = run_all_impl(ctx, bins, lines, threads)
     ref_key = (BUILDS[0], threads[0])
+    acc = ctx.c04_iso
 
     def fields(o):
         return dict(t.split("=", 1) for t in o.split() if "=" in t)
     mlines, midx = [], []
     for i, c in enumerate(cases):
         o = impl[ref_key][i]
-        if o.startswith("abort:") or o.startswith("throw:"):
+        if o.startswith("abort:"):
             continue
-        f = fields(o)
-        extra = ""
-        if c.eig == "dense" and c.N <= 16:      # certificate of the final embedding (exact LDLt: small N only)
-            extra = " d=%d ev=%s Y=%s" % (c.d, f.get("ev", ""), f.get("Y", ""))
-        mlines.append("iso N=%d nb=%s w=%s pre=%s%s" % (c.N, f.get("nb", ""), mat_txt(c.W), f.get("pre", ""), extra))
+        mlines.append(iso_model_line(c, fields(o)))
         midx.append(i)
     mout = model_lines(ctx, mlines) if mlines else []
     if mout is None:
         return
     verdict = dict(zip(midx, mout))
+
+    def fail_once(sig, what, i, detail):
+        ctx.stat(sig)
+        if sig in ctx.c04_seen:
+            return
+        ctx.c04_seen.add(sig)
+        ctx.fail(sig, what, case=lines[i], detail=detail)
     for i, c in enumerate(cases):
         ctx.count(lines[i], True)
         ctx.stat("iso:N=%d" % c.N)
         ctx.stat("iso:gen:" + c.tag)
+        acc["total"] += 1
         ref = impl[ref_key][i]
-        # identical for both back-ends and all thread counts (exact comparison of everything before the eigensolver)
         rf = fields(ref)
+        # identical for both back-ends and all thread counts: observed lists, outcome, matrix before the eigensolver (exact)
         for (b, t), outs in impl.items():
             ctx.cov["traces_validated_against_impl"] += 1
             o = outs[i]
             if o.startswith("abort:"):
-                ctx.fail("iso:%s:abort:%s" % (b, o[6:]), "Isomap aborts (%s), %s build, %d threads" % (o[6:], b, t),
-                         case=lines[i], detail={"stderr": getattr(ctx, "last_abort_stderr", "")[-1500:]})
+                fail_once("iso:%s:abort:%s" % (b, o[6:]), "Isomap aborts (%s), %s build, %d threads" % (o[6:], b, t), i,
+                          {"stderr": getattr(ctx, "last_abort_stderr", "")[-1500:]})
+                continue
+            if ref.startswith("abort:"):
                 continue
             of = fields(o)
-            if o.startswith("throw:") or ref.startswith("throw:") or ref.startswith("abort:"):
-                if o.split()[0] != ref.split()[0]:
-                    ctx.fail("iso:config-dependent-outcome", "Isomap outcome differs between configurations: %s/%d threads: %s vs %s"
-                             % (b, t, o[:60], ref[:60]), case=lines[i])
+            if ("throw" in of) != ("throw" in rf):
+                fail_once("iso:config-dependent-outcome",
+                          "Isomap outcome differs between configurations: %s/%d threads: %s vs %s" % (b, t, o[:80], ref[:80]),
+                          i, {"this": o[:2000], "reference": ref[:2000]})
                 continue
-            if of.get("pre") != rf.get("pre") or of.get("nb") != rf.get("nb"):
-                ctx.fail("iso:config-dependent:" + b,
-                         "the matrix Isomap hands to the eigensolver differs between back-ends / thread counts (%s build, %d threads vs %s build, %d thread)"
-                         % (b, t, ref_key[0], ref_key[1]), case=lines[i], detail={"this": o[:3000], "reference": ref[:3000]})
-        if ref.startswith("throw:"):
-            ctx.stat("iso:throw:" + ref[6:40])
-            continue
+            if of.get("pre") != rf.get("pre") or of.get("nb") != rf.get("nb") or of.get("rounds") != rf.get("rounds"):
+                fail_once("iso:config-dependent:" + b,
+                          "the neighbour lists / the matrix Isomap hands to the eigensolver differ between back-ends / thread "
+                          "counts (%s build, %d threads vs %s build, %d thread)" % (b, t, ref_key[0], ref_key[1]), i,
+                          {"this": o[:3000], "reference": ref[:3000]})
         v = verdict.get(i)
         if v is None:
             continue
         vf = fields(v)
-        if vf.get("pre") == "unreachable":
-            ctx.stat("iso:unreachable-pairs(skipped, C03)")
+        thrown = "throw" in rf
+        # ---- the lists observed inside embed(): uniform, of the length the doubling rule gives
+        rounds = int(rf.get("rounds", "0") or 0)
+        obs = [] if not rf.get("nb") else [0 if l == "-" else len(l.split(",")) for l in rf["nb"].split(";")]
+        want_k = min(c.k * 2 ** max(rounds - 1, 0), c.N - 1)
+        if vf.get("graph") != "ok" or not obs or any(n != want_k for n in obs) or rounds < 1 or (c.cc == 0 and rounds != 1):
+            fail_once("iso:observed-lists", "the neighbour lists Isomap relaxes over (observed through the distance callback) are not "
+                      "uniform lists of min(k*2^(rounds-1), N-1) = %d entries (rounds=%d, lengths %s, model: %s)"
+                      % (want_k, rounds, sorted(set(obs)), vf.get("graph")), i, {"verdict": v, "impl": ref[:2000]})
+            continue
+        reach = vf.get("reach")
+        ctx.stat("iso:model-predicts-" + str(reach))
+        if reach == "unreachable":
+            if c.cc == 1:
+                # check_connectivity on (the default): the returned graph is strongly connected, so every geodesic is finite
+                fail_once("iso:connectivity-check-on-but-unreachable",
+                          "check_connectivity is on but the neighbourhood graph Isomap used has unreachable pairs (infinite "
+                          "geodesics%s)" % (": " + rf["throw"] if thrown else ""), i, {"verdict": v, "impl": ref[:2000]})
+                continue
+            # check off and the graph is not strongly connected: the model itself predicts a non-finite matrix
+            acc["expected_failure"] += 1
+            ctx.stat("iso:expected-failure(model predicts non-finite matrix):" + ("throws" if thrown else "returns"))
+            continue
+        if thrown:
+            fail_once("iso:throws-on-finite-geodesics",
+                      "Isomap throws (%s) although every geodesic of the neighbourhood graph it used is finite" % rf["throw"],
+                      i, {"verdict": v, "impl": ref[:2000]})
             continue
         ctx.stat("iso:geodesics-symmetric" if vf.get("sym") == "1" else "iso:geodesics-asymmetric")
         ctx.stat("exact-comparisons", c.N * c.N)
+        if str(vf.get("pre")).startswith("FAIL"):
+            fail_once("iso:matrix-not-finite", "the matrix Isomap hands to the eigensolver is not finite although all geodesics "
+                      "are finite", i, {"verdict": v, "impl": ref[:2000]})
+            continue
         if vf.get("cmds") != "ok":
             # the property's oracle: the matrix the dense solver decomposes is -1/2 J S J of the averaged squared geodesics
             sig = "iso:not-classical-mds:sym=%s" % vf.get("sym")
@@ -633,43 +686,74 @@ def judge_iso(ctx, bins, cases, threads):
                 continue
             ctx.c04_seen.add(sig)
             small = shrink_iso(ctx, bins, c)
-            ctx.fail("iso:not-classical-mds:sym=%s" % vf.get("sym"),
-                     "the matrix decomposed by Isomap is not the classical-MDS matrix -1/2 J S J of the (direction-averaged) "
+            ctx.fail(sig, "the matrix decomposed by Isomap is not the classical-MDS matrix -1/2 J S J of the (direction-averaged) "
                      "squared geodesics [%s; geodesics %ssymmetric]" % (vf.get("cmds"), "" if vf.get("sym") == "1" else "a"),
                      case=small.line(), detail={"verdict": v, "original": lines[i][:1500], "impl": ref[:1500]})
             continue
         yv = vf.get("y", "na")
         ctx.stat("iso:embedding-certificate:" + yv.split(":")[0])
+        if c.eig == "dense" and c.N <= 16:
+            acc["cert_eligible"] += 1
+            if not (yv.startswith("ok") or yv.startswith("FAIL")):
+                acc["cert_unjudged"] += 1
         if yv.startswith("ok"):
             ctx.stat("approx-comparisons", c.N * c.d + c.d * c.d)
-        if yv.startswith("FAIL") and "iso:embedding:" + yv not in ctx.c04_seen:
-            ctx.c04_seen.add("iso:embedding:" + yv)
-            ctx.fail("iso:embedding-not-classical-mds:" + yv,
-                     "the embedding returned by Isomap is not the classical-MDS solution of the reference geodesics (%s: "
-                     "Gram matrix / eigen-residual / extremality checked in exact arithmetic, tolerance 2^-30*scale)" % yv,
-                     case=lines[i], detail={"verdict": v, "impl": ref[:3000]})
+        if yv.startswith("FAIL"):
+            fail_once("iso:embedding-not-classical-mds:" + yv,
+                      "the embedding returned by Isomap is not the classical-MDS solution of the reference geodesics (%s: finite "
+                      "values, Gram matrix, eigen-residual, extremality checked in exact arithmetic, tolerance 2^-30*scale)" % yv,
+                      i, {"verdict": v, "impl": ref[:3000]})
         if vf.get("pre") != "ok":
-            if vf.get("cmds") == "ok":
-                ctx.broken("corr:iso-pre", "correspondence c04_iso: matrix handed to the eigensolver vs model isomapPre",
-                           "model isomapPre and the observed matrix differ: %s" % vf.get("pre"), case=lines[i],
-                           detail={"verdict": v, "impl": ref[:3000]})
+            ctx.broken("corr:iso-pre", "correspondence c04_iso: matrix handed to the eigensolver vs model isomapPre",
+                       "model isomapPre and the observed matrix differ: %s" % vf.get("pre"), case=lines[i],
+                       detail={"verdict": v, "impl": ref[:3000]})
             ctx.stat("iso:pre-mismatch")
         else:
             ctx.stat("iso:pre-identical")
+            acc["judged"] += 1
         if len([s for s in ctx.cov["samples"] if "iso" in str(s.get("case", ""))[:4]]) < 2 and c.N <= 8:
             ctx.sample({"case": lines[i], "impl": ref[:600], "model_verdict": v})
 
 
+def skip_guards(ctx):
+    """a leg that silently stops judging its cases is a broken tie, not a green run"""
+    a = ctx.c04_iso
+    ctx.extra["iso_leg"] = dict(a)
+    if a["total"]:
+        if a["expected_failure"] > ISO_MAX_EXPECTED_FAILURE_FRACTION * a["total"]:
+            ctx.broken("guard:iso-skip-rate", "correspondence c04_iso (skip-rate guard)",
+                       "%d of %d Isomap cases are in the class where the model itself predicts failure (allowed: %d%%): the leg "
+                       "no longer judges enough cases" % (a["expected_failure"], a["total"], 100 * ISO_MAX_EXPECTED_FAILURE_FRACTION))
+        if a["cert_eligible"] and a["cert_unjudged"] > ISO_MAX_CERT_UNJUDGED_FRACTION * a["cert_eligible"]:
+            ctx.broken("guard:iso-certificate-skip-rate", "correspondence c04_iso (certificate skip-rate guard)",
+                       "%d of %d eligible embeddings were not judged by the certificate (inconclusive / na; allowed: %d%%)"
+                       % (a["cert_unjudged"], a["cert_eligible"], 100 * ISO_MAX_CERT_UNJUDGED_FRACTION))
+        if a["judged"] * 2 < a["total"]:
+            ctx.broken("guard:iso-judged-rate", "correspondence c04_iso (judged-rate guard)",
+                       "only %d of %d Isomap cases reached the exact comparison of the matrix handed to the eigensolver"
+                       % (a["judged"], a["total"]))
+    d = ctx.extra.get("distribution", {})
+    geo_total = sum(v for k, v in d.items() if k.startswith("geo:gen:"))
+    geo_unjudged = d.get("geo:unjudged(agreed oob/abort)", 0)
+    ctx.extra["geo_leg"] = {"total": geo_total, "unjudged": geo_unjudged}
+    if geo_total and geo_unjudged > GEO_MAX_UNJUDGED_FRACTION * geo_total:
+        ctx.broken("guard:geo-skip-rate", "correspondence c04_geo (skip-rate guard)",
+                   "%d of %d geo cases end in the agreed out-of-contract state and are not judged by the oracle (allowed: %d%%)"
+                   % (geo_unjudged, geo_total, 100 * GEO_MAX_UNJUDGED_FRACTION))
+
+
 def iso_bad(ctx, bins, c):
     o = ctx.run_impl_cases(bins["pq"], [c.line()], env=omp_env(1, alarm=10))
-    if not o or o[0].startswith("abort:") or o[0].startswith("throw:"):
+    if not o or o[0].startswith("abort:"):
         return False
     f = dict(t.split("=", 1) for t in o[0].split() if "=" in t)
-    v = model_lines(ctx, ["iso N=%d nb=%s w=%s pre=%s" % (c.N, f.get("nb", ""), mat_txt(c.W), f.get("pre", ""))])
+    if "throw" in f:
+        return False
+    v = model_lines(ctx, [iso_model_line(c, f)])
     if not v:
         return False
     vf = dict(t.split("=", 1) for t in v[0].split() if "=" in t)
-    return vf.get("cmds", "ok") not in ("ok", "na")
+    return vf.get("reach") == "finite" and vf.get("cmds", "ok") not in ("ok", "na")
 
 
 def shrink_iso(ctx, bins, c):
@@ -737,6 +821,7 @@ def corpus_lines():
 def correspond(ctx):
     quick = ctx.tier == "quick"
     ctx.c04_seen = set()
+    ctx.c04_iso = {"total": 0, "judged": 0, "expected_failure": 0, "cert_eligible": 0, "cert_unjudged": 0}
     bins = build_all(ctx, quick)
     if bins is None:
         return
@@ -810,6 +895,7 @@ def correspond(ctx):
     iso.sort(key=lambda c: 0 if all(c.W[i][j] == c.W[j][i] for i in range(c.N) for j in range(i)) else 1)
     judge_iso(ctx, bins["iso"], iso, [1, 3, 8] if quick else THREADS)
     ctx.log("isomap end to end: %d cases" % len(iso))
+    skip_guards(ctx)
     ctx.cov["rule"] = (
         "geo: uniform-length neighbour lists from 4 generators (true k-NN of integer lattice points under L1/Linf with random "
         "tie-breaks; arbitrary digraphs with asymmetric non-metric dyadic weights, self loops, repeated entries; clusters with "
